@@ -245,6 +245,9 @@ func (ctrl *DefaultController) Import(ctx context.Context, stream chan ledger.Lo
 	}
 
 	for log := range stream {
+		if log.ID == nil {
+			return NewErrImport(errors.New("log without id"))
+		}
 		if lastLogID != nil && *log.ID <= *lastLogID {
 			return NewErrImport(fmt.Errorf("log %d already exists", *log.ID))
 		}
@@ -295,6 +298,9 @@ func (ctrl *DefaultController) importLog(ctx context.Context, store Store, log l
 					return nil, fmt.Errorf("failed to insert schema: %w", err)
 				}
 			case ledger.CreatedTransaction:
+				if payload.Transaction.ID == nil {
+					return nil, NewErrImport(errors.New("transaction without id"))
+				}
 				logging.FromContext(ctx).Debugf("Importing transaction %d", *payload.Transaction.ID)
 				var schema *ledger.Schema
 				var err error
@@ -312,6 +318,9 @@ func (ctrl *DefaultController) importLog(ctx context.Context, store Store, log l
 				}
 				logging.FromContext(ctx).Debugf("Imported transaction %d", *payload.Transaction.ID)
 			case ledger.RevertedTransaction:
+				if payload.RevertedTransaction.ID == nil || payload.RevertedTransaction.RevertedAt == nil {
+					return nil, NewErrImport(errors.New("reverted transaction without id or revert date"))
+				}
 				logging.FromContext(ctx).Debugf("Reverting transaction %d", *payload.RevertedTransaction.ID)
 				_, _, err := store.RevertTransaction(
 					ctx,
@@ -328,13 +337,21 @@ func (ctrl *DefaultController) importLog(ctx context.Context, store Store, log l
 				switch payload.TargetType {
 				case ledger.MetaTargetTypeTransaction:
 					logging.FromContext(ctx).Debugf("Saving metadata of transaction %d", payload.TargetID)
-					if _, _, err := store.UpdateTransactionMetadata(ctx, payload.TargetID.(uint64), payload.Metadata, log.Date); err != nil {
+					transactionID, ok := payload.TargetID.(uint64)
+					if !ok {
+						return nil, NewErrImport(fmt.Errorf("invalid transaction id %v", payload.TargetID))
+					}
+					if _, _, err := store.UpdateTransactionMetadata(ctx, transactionID, payload.Metadata, log.Date); err != nil {
 						return nil, fmt.Errorf("failed to update transaction metadata: %w", err)
 					}
 				case ledger.MetaTargetTypeAccount:
 					logging.FromContext(ctx).Debugf("Saving metadata of account %s", payload.TargetID)
+					address, ok := payload.TargetID.(string)
+					if !ok {
+						return nil, NewErrImport(fmt.Errorf("invalid account address %v", payload.TargetID))
+					}
 					if err := store.UpdateAccountsMetadata(ctx, ledger.AccountMetadata{
-						payload.TargetID.(string): payload.Metadata,
+						address: payload.Metadata,
 					}, log.Date); err != nil {
 						return nil, fmt.Errorf("failed to update account metadata: %w", err)
 					}
@@ -343,12 +360,20 @@ func (ctrl *DefaultController) importLog(ctx context.Context, store Store, log l
 				switch payload.TargetType {
 				case ledger.MetaTargetTypeTransaction:
 					logging.FromContext(ctx).Debugf("Deleting metadata of transaction %d", payload.TargetID)
-					if _, _, err := store.DeleteTransactionMetadata(ctx, payload.TargetID.(uint64), payload.Key, log.Date); err != nil {
+					transactionID, ok := payload.TargetID.(uint64)
+					if !ok {
+						return nil, NewErrImport(fmt.Errorf("invalid transaction id %v", payload.TargetID))
+					}
+					if _, _, err := store.DeleteTransactionMetadata(ctx, transactionID, payload.Key, log.Date); err != nil {
 						return nil, fmt.Errorf("failed to delete transaction metadata: %w", err)
 					}
 				case ledger.MetaTargetTypeAccount:
 					logging.FromContext(ctx).Debugf("Deleting metadata of account %s", payload.TargetID)
-					if err := store.DeleteAccountMetadata(ctx, payload.TargetID.(string), payload.Key); err != nil {
+					address, ok := payload.TargetID.(string)
+					if !ok {
+						return nil, NewErrImport(fmt.Errorf("invalid account address %v", payload.TargetID))
+					}
+					if err := store.DeleteAccountMetadata(ctx, address, payload.Key); err != nil {
 						return nil, fmt.Errorf("failed to delete account metadata: %w", err)
 					}
 				}
